@@ -31,6 +31,10 @@ KsClauses(r) ==
     (* history on one object (sample, fit / assign parameters, sample): the sample is bit-for-bit *)
     (* the one a fresh object with the same parameters gives for the same seed                    *)
     <<"SameAsFreshObject", r.fresh>>,
+    (* one independent draw per row: a continuous variable repeats a value with probability  *)
+    (* about n^2 / 2^53 per column (1e-4 at n = 1e6); more than 3 repeated values in a column *)
+    (* (dups = n - number of distinct values) have probability < 1e-16                        *)
+    <<"RowsDrawnIndependently", \A k \in 1..Len(r.dups) : r.dups[k] <= 3>>,
     <<"SampleFinite", r.finite>>
   >>
 
